@@ -146,7 +146,10 @@ Example ex_dag_in_domain :
 Proof. vm_compute. repeat split. Qed.
 
 Example ex_dag_acyclic : acyclic (fst (run empty ex_dag)).
-Proof. apply (C15_success_iff_acyclic _ eq_refl). exists [1; 3; 4; 2]. vm_compute. reflexivity. Qed.
+Proof.
+  apply (C15_success_iff_acyclic (fst (run empty ex_dag))); [vm_compute; reflexivity|].
+  exists [1; 3; 4; 2]. vm_compute. reflexivity.
+Qed.
 
 Example ex_dirty_outside_domain :
   valid_ops empty (firstn 9 ex_dag) = true /\ dirty [] (firstn 9 ex_dag) = [1] /\
